@@ -24,7 +24,11 @@ RULE = (
     "op(r1(X), r2(Y)) for representative letters r1, r2 and op in + - * / ** maximum; plus "
     "DAG programs w=r1(X), z=r2(Y), f=g(w,z), f o w and w o f (o in + - * /; g over + - * / ** "
     "and all maximum pairings, both operand orders) in which the object w is used twice; every "
-    "operand of every operation is fingerprinted before and after (purity oracle); each "
+    "operand of every operation is fingerprinted before and after (purity oracle); every "
+    "program containing a letter with a guarded derivative formula (l2_norm, safe_power, abs, "
+    "heaviside*, characteristic_function, maximum) additionally at special points with exact "
+    "0.0 / 1.0 / -1.0 entries (single zero component in every position of non-zero 2- and "
+    "3-vectors); each "
     "program at every size n and every lattice point; shape-inconsistent trees are not "
     "programs; points on kinks / outside smooth domains are skipped (trivial). "
     "Non-trivial = distinct (program, n) evaluated at an in-domain point where the true "
@@ -156,8 +160,11 @@ def _root_class(p):
 def _selfcheck(case, out: Outcome):
     n = case["n"]
     pts = G.points(n, "quick")
+    npts = len(pts)
+    pts = pts + G.special_points(n, "thorough")
     for p in _programs(case):
-        for k in (0, 3):
+        # two ordinary points; programs with a guarded letter also at every special point
+        for k in (0, 3) + (tuple(range(npts, len(pts))) if G.ops_in(p) & G.GUARDED else ()):
             x, y = pts[k]
             try:
                 val, jac = G.Oracle(x, y).run(p)
@@ -186,11 +193,15 @@ def run_case(case) -> Outcome:
 
     n = case["n"]
     pts = G.points(n, case["tier"])
+    nbase = len(pts)
+    pts = pts + G.special_points(n, case["tier"])
     progs = _programs(case)
+    guarded = [p for p in progs if G.ops_in(p) & G.GUARDED]
     nviol = 0
     for k, (x, y) in enumerate(pts):
         X0, Y0 = pp.ad.initAdArrays([x, y])
-        for p in progs:
+        # special points (exact 0, +-1 entries) only for programs with a guarded letter
+        for p in progs if k < nbase else guarded:
             orc = G.Oracle(x, y)
             try:
                 val, jac = orc.run(p)
